@@ -59,12 +59,15 @@ structure St where
   stype : SType        -- state_type
   attempt : Nat        -- check_attempt
   lastHard : SState    -- last_hard_state_raw
+  hist : Nat           -- last_hard_states_raw: current * 100 + previous, 99 = "never" (checkable.ti:113-115)
+  lastState : SState   -- last_state_raw (state of the result before the latest one)
   lastExec : Option Int  -- execution_start of last_check_result, if any
   deriving Repr, DecidableEq
 
-/-- A never-checked checkable (lib/icinga/checkable.ti:98-112 defaults). -/
+/-- A never-checked checkable (lib/icinga/checkable.ti:98-118 defaults). -/
 def pending : St :=
-  { state := .unknown, stype := .soft, attempt := 1, lastHard := .unknown, lastExec := none }
+  { state := .unknown, stype := .soft, attempt := 1, lastHard := .unknown, hist := 9999,
+    lastState := .unknown, lastExec := none }
 
 structure Res where
   state : SState
@@ -110,12 +113,16 @@ def eventOf (c : Cfg) (s : St) (new : SState) (newType : SType) : Ev :=
   else if stateChange c.kind s.state new || newType == .soft then .soft
   else .none
 
-/-- The step without the stale-result filter. -/
+/-- The step without the stale-result filter.  checkable-check.cpp:203 (`SetLastStateRaw(old_state)`),
+    :297-301 (`if (hardChange || is_volatile) { SetLastHardStateRaw(new_state); …
+    SetLastHardStatesRaw(GetLastHardStatesRaw() / 100u + new_state * 100u); }`). -/
 def stepCore (c : Cfg) (s : St) (r : Res) : St × Ev :=
   let ta := nextTypeAttempt c s r.state
   let hc := hardChangeOf c s r.state ta.1
   ({ state := r.state, stype := ta.1, attempt := ta.2,
      lastHard := if hc || c.volatile then r.state else s.lastHard,
+     hist := if hc || c.volatile then s.hist / 100 + r.state.toNat * 100 else s.hist,
+     lastState := s.state,
      lastExec := some r.execStart },
    eventOf c s r.state ta.1)
 
@@ -127,21 +134,39 @@ def step (c : Cfg) (s : St) (r : Res) : St × Ev × Bool :=
 /-- What the harness observes after each result. -/
 structure Obs where
   accepted : Bool
-  state : SState
+  state : SState       -- state_raw
   stype : SType
   attempt : Nat
-  lastHard : SState
+  lastHard : SState    -- last_hard_state_raw
   ev : Ev
+  prevHard : Nat       -- `previous_hard_state` of the stored check result (99 = never), checkable-check.cpp:307
+  vaState : Nat        -- `vars_after` of the stored check result (9 9 0 when there is none), :338-348
+  vaType : Nat
+  vaAttempt : Nat
+  apiState : Nat       -- Host::GetState()/Service::GetState() as the API shows it (host.cpp:156-168)
+  apiLastState : Nat   -- …::GetLastState()
+  apiLastHard : Nat    -- …::GetLastHardState()
   deriving Repr, DecidableEq
 
-def obsOf (p : St × Ev × Bool) : Obs :=
-  { accepted := p.2.2, state := p.1.state, stype := p.1.stype, attempt := p.1.attempt,
-    lastHard := p.1.lastHard, ev := p.2.1 }
+def obsOf (c : Cfg) (p : St × Ev × Bool) : Obs :=
+  let s := p.1
+  let has := s.lastExec.isSome
+  { accepted := p.2.2, state := s.state, stype := s.stype, attempt := s.attempt,
+    lastHard := s.lastHard, ev := p.2.1,
+    prevHard := s.hist % 100,
+    vaState := if has then s.state.toNat else 9,
+    vaType := if has then s.stype.toNat else 9,
+    vaAttempt := if has then s.attempt else 0,
+    apiState := proj c.kind s.state, apiLastState := proj c.kind s.lastState,
+    apiLastHard := proj c.kind s.lastHard }
+
+/-- The observation of a state at rest (start state restored from the state file). -/
+def stObs (c : Cfg) (s : St) : Obs := obsOf c (s, .none, true)
 
 /-- Run a history, collecting (result, observation) pairs. -/
 def trace (c : Cfg) : St → List Res → List (Res × Obs)
   | _, [] => []
-  | s, r :: rs => let p := step c s r; (r, obsOf p) :: trace c p.1 rs
+  | s, r :: rs => let p := step c s r; (r, obsOf c p) :: trace c p.1 rs
 
 def run (c : Cfg) (s : St) (rs : List Res) : St :=
   rs.foldl (fun s r => (step c s r).1) s
